@@ -498,6 +498,22 @@ def judge_mapping(case):
             v = raw[p, c]
             exp[p, c] = val[v] if isinstance(v, str) else 0.0
     j.check(got.shape == exp.shape and np.allclose(got, exp, rtol=1e-12, atol=1e-14), "map-values", lambda: f"mapped values differ: {got.tolist()} expected {exp.tolist()}")
+    if cs is not None:
+        # the same names and mapping table with other constraint coefficients (a corrected constraint sheet)
+        cs2 = cs.copy() * -1.5 + 0.25
+        out2 = sut(gen.dfphi_map_func, phi.copy(), list(sn), sm.copy(), cstrn=cs2.copy())
+        if j.check(not raised(out2), "map-raises", lambda: f"second constraint matrix: {out2!r}"):
+            val2 = dict(zip(names, phi))
+            for cn in cs2.index:
+                val2[cn] = float(sum((0.0 if np.isnan(cs2.loc[cn, col]) else cs2.loc[cn, col]) * val2[col] for col in cs2.columns))
+            exp2 = np.zeros(raw.shape)
+            for p in range(raw.shape[0]):
+                for c in range(3):
+                    v = raw[p, c]
+                    exp2[p, c] = val2[v] if isinstance(v, str) else 0.0
+            got2 = np.asarray(out2, dtype=float)
+            j.check(got2.shape == exp2.shape and np.allclose(got2, exp2, rtol=1e-12, atol=1e-14), "map-values-second-constraints",
+                    lambda: f"after changing only the constraint coefficients the mapped values are {got2.tolist()}, expected {exp2.tolist()}")
     # drawn displacement on Agg
     host = _host(case["names"])
     kw = dict(sens_names=_names_obj(case["names"]), pts_coord=d["points coordinates"].copy(), sens_map=d["mapping"].copy())
@@ -511,8 +527,13 @@ def judge_mapping(case):
     scale = float(rng.choice([1.0, 3.0, 0.5]))
     Phi = np.column_stack([phi, rng.uniform(-1, 1, size=len(names))])
     plt.close("all")
-    fa = sut(host.plot_mode_geo2_mpl, BaseResult(Fn=np.array([1.0, 2.0]), Phi=Phi), mode_nr=1, scaleF=scale, view="3D", color="blue")
-    if j.check(not raised(fa), "plot-geo2-raises", lambda: f"{fa!r}"):
+    result = BaseResult(Fn=np.array([1.0, 2.0]), Phi=Phi)
+    Phi0 = Phi.copy()
+    for colour in ("blue", "red"):  # the same mode of the same result object drawn twice
+        fa = sut(host.plot_mode_geo2_mpl, result, mode_nr=1, scaleF=scale, view="3D", color=colour)
+        if not j.check(not raised(fa), "plot-geo2-raises", lambda: f"{fa!r}"):
+            break
+        j.check(np.array_equal(np.asarray(result.Phi), Phi0), "plot-geo2-mutates-result", "plot_mode_geo2_mpl modified the mode shapes of the result it was given")
         fig, ax = fa
         sign = d["sensors sign"].to_numpy(dtype=float) if "sensors sign" in d else np.ones(exp.shape)
         want = d["points coordinates"].to_numpy(dtype=float) + exp * scale * sign
